@@ -231,17 +231,28 @@ def chained_any_form(fx, rep, p, slf):
     window = ("call", "std::iter::Iterator::take", (iter_term(slf), lit_int(50)))
     q1 = [q for q in quants if q[2] == window]
     q2 = [q for q in quants if q[2] == ("exhausted", window)]
-    if len(q1) != 1 or len(q2) != 1 or q1[0][1] != "any" or q2[0][1] != "any":
+    if len(q1) != 1 or len(q2) != 1:
+        return False
+
+    def as_any(q):
+        """(predicate, polarity): `any(P)` is kept either as such or as its dual `!all(!P)`"""
+        if q[1] == "any":
+            return q[3], True
+        if q[1] == "all" and q[3][0] == "not":
+            return q[3][1], False
+        return None, None
+    (P1, pol1), (P2, pol2) = as_any(q1[0]), as_any(q2[0])
+    if P1 is None or P2 is None:
         return False
     rep.fn(p)
     x = ("bound", 0)
     okx = mk_payload(x, "Ok", "0")
-    p1 = pred_equals(q1[0][3], lambda o: TRUE if (o(("is", x, "Ok")) and o(("is", okx, "Class"))) else FALSE)
-    p2 = pred_equals(q2[0][3], lambda o: TRUE if (o(("is", x, "Ok")) and (o(("is", okx, "Field")) or o(("is", okx, "Method")))) else FALSE)
+    p1 = pred_equals(P1, lambda o: TRUE if (o(("is", x, "Ok")) and o(("is", okx, "Class"))) else FALSE)
+    p2 = pred_equals(P2, lambda o: TRUE if (o(("is", x, "Ok")) and (o(("is", okx, "Field")) or o(("is", okx, "Method")))) else FALSE)
     A1, A2 = ("bool", q1[0]), ("bool", q2[0])
 
     def ref(o):
-        return TRUE if (o(A1) and o(A2)) else FALSE
+        return TRUE if ((o(A1) == pol1) and (o(A2) == pol2)) else FALSE
     bad, n = fc.compare_paths(res, ref, lambda st, out: out[1])
     rep.check("C19.3", "C19.3/is_valid/per-record", p1 and p2 and not bad, loc=F.short_file(b["sp"]),
               found="any(Ok(Class)) then any(Ok(Field|Method)) on the same iterator: first predicate %s, second predicate %s, conjunction %s" % (p1, p2, not bad),
